@@ -29,25 +29,232 @@ def expect_declspec(i, c):
     return "C %d %d %d %d %d" % (i, c["sz"], c["sz"], 1 if c["sg"] else 0, frac)
 
 
+PQUAL = ["", " const", " volatile", " const volatile", " restrict", " __restrict", " const __restrict__"]
+FPARAM = [("void", ""), ("int", "0"), ("TD0", "0"), ("char *", "0")]
+
+
+def decorate(i, c, arr0=None):
+    """The declarator of case c as C text, rendered from the parse tree c["s"] exactly as Declarator.tla's Render does,
+    with two decorations that do not change the type (Level A: identity): the qualifier list of every pointer (restrict
+    only where the pointee is an object type) and the parameter list of every function (void / int / a typedef name /
+    a pointer).  arr0: what stands between the brackets of the outermost array derivation of a parameter (N = its
+    length; 6.7.6.2p1, 6.7.6.3p7: type qualifiers, static, *).  Returns (named % name, abstract or None, call arguments
+    and parameter / qualifier texts per derivation)."""
+    s, d = c["s"], c["d"]
+    acc, plain, k, args, pars = ["\0"], ["x"], 0, [], []
+    for o in s:
+        if o == "G":
+            acc, plain = ["("] + acc + [")"], ["("] + plain + [")"]
+            continue
+        nxt = d[k + 1] if k + 1 < len(d) else ""
+        if o == "P":
+            q = PQUAL[(i + 3 * k) % len(PQUAL)]
+            if "restrict" in q and nxt == "F":
+                q = " const"
+            acc, plain = ["*" + q] + acc, ["*"] + plain
+            args.append(None)
+            pars.append(q)
+        elif o == "F":
+            par, arg = FPARAM[(i + k) % len(FPARAM)]
+            acc, plain = acc + ["(" + par + ")"], plain + ["(", "void", ")"]
+            args.append(arg)
+            pars.append(par)
+        else:
+            acc, plain = acc + ["[%s]" % (arr0.replace("N", o[1]) if k == 0 and arr0 else o[1])], plain + ["[%s]" % o[1]]
+            args.append(None)
+            pars.append(None)
+        k += 1
+    if plain != c["named"]:
+        raise Infra("harness rendering of %s differs from Declarator.tla's: %s / %s" % (s, plain, c["named"]))
+    has_abs = c["abstract"] != ["-"]
+    if has_abs and [t for t in plain if t != "x"] != c["abstract"]:
+        raise Infra("harness rendering of abstract %s differs from Declarator.tla's" % s)
+    text = " ".join(acc)
+    return text.replace("\0", "%s"), (" ".join(text.replace("\0", "").split()) if has_abs else None), args, pars
+
+
+def chain(e, d, sizes, args):
+    """printf arguments: sizeof of e and of what every derivation leads to (*e / e(args)), where it is an object."""
+    out = []
+    for j in range(len(d) + 1):
+        if sizes[j] != -1:
+            out.append("(int)sizeof(%s)" % e)
+        if j < len(d):
+            e = "%s(%s)" % (e, args[j]) if d[j] == "F" else "(*%s)" % e
+    return out
+
+
+def addr_chain(e, d, sizes, args):
+    """printf arguments: sizeof(*&e) for e and every lvalue of object type the derivations lead to (6.5.3.2p3: &e is a
+    pointer to the type of e, also when that is an array type), and the distance from &e to &e + 1."""
+    out, e0 = [], e
+    for j in range(len(d) + 1):
+        if sizes[j] != -1 and (j == 0 or d[j - 1] != "F"):
+            out.append("(int)sizeof(*&%s)" % e)
+        if j < len(d):
+            e = "%s(%s)" % (e, args[j]) if d[j] == "F" else "(*%s)" % e
+    if sizes[0] != -1:
+        out.append("(int)((char *)(&%s + 1) - (char *)&%s)" % (e0, e0))
+    return out
+
+
+def addr_sizes(c):
+    d, sz = c["d"], c["sizes"]
+    return [sz[j] for j in range(len(d) + 1) if sz[j] != -1 and (j == 0 or d[j - 1] != "F")] + ([sz[0]] if sz[0] != -1 else [])
+
+
+def pr(tag, exprs):
+    return ' printf(" %s%s"%s);' % (tag, " %d" * len(exprs), "".join(", " + x for x in exprs))
+
+
+def canon(d, pars):
+    """C text of the abstract declarator of derivation sequence d with exactly the parentheses precedence requires."""
+    acc, need = "", False
+    for o, par in zip(d, pars):
+        if o == "P":
+            acc, need = "*" + (par or "") + " " + acc, True
+        else:
+            acc = ("(" + acc + ")" if need else acc) + ("(%s)" % par if o == "F" else "[%s]" % o[1])
+            need = False
+    return acc
+
+
+def param_sizes(c):
+    ps = list(c["sizes"])
+    if c["d"] and c["d"][0] in ("A2", "A3", "F"):
+        ps[0] = 8                       # 6.7.6.3p7-8: adjusted to a pointer
+    return ps
+
+
+def plf(c):
+    """abstract declarator that begins with a parameter list (the innermost production is a function suffix)"""
+    return c["abstract"] != ["-"] and bool(c["s"]) and c["s"][0] == "F"
+
+
 def render_declarator(i, c):
-    named = " ".join(c["named"]).replace("x", "x%d" % i)
-    abstract = " ".join(c["abstract"])
-    n = len(c["sizes"])
-    out = ["extern int %s;" % named if c["d"][0] == "F" else "static int %s;" % named,
-           "static void f%d(void) { printf(\"C %d\");" % (i, i)]
-    for j in range(n):
-        out.append(' printf(" %%d", (int)sizeof(%sx%d));' % ("*" * j, i))
-    if n:
-        out.append(' printf(" t%%d", (int)sizeof(int %s));' % abstract)
+    """Every context a declarator occurs in: file scope, block scope, typedef, member, parameter, type name."""
+    named, abstract, args, pars = decorate(i, c)
+    d, sz = c["d"], c["sizes"]
+    fn = bool(d) and d[0] == "F"
+    out = ["%s int %s;" % ("extern" if fn else "static", named % ("x%d" % i)),
+           "typedef int %s;" % (named % ("T%d" % i))]
+    if not fn:
+        out.append("struct M%d { char c; int %s; char e; };" % (i, named % "x"))
+    out.append("static void h%d(int %s) {%s }" % (i, named % "x", pr("p", chain("x", d, param_sizes(c), args))))
+    body = [pr("g", chain("x%d" % i, d, sz, args)),
+            " { int %s;%s }" % (named % ("y%d" % i), pr("l", chain("y%d" % i, d, sz, args))),
+            " { T%d *v;%s }" % (i, pr("t", chain("(*v)", d, sz, args)))]
+    if not fn:
+        body.append(pr("m", chain("(((struct M%d *)0)->x)" % i, d, sz, args)
+                       + ["OFF(struct M%d, x)" % i, "OFF(struct M%d, e)" % i, "(int)sizeof(struct M%d)" % i]))
+    body.append(" h%d(0);" % i)
+    if abstract is not None and not fn:
+        body.append(" { typeof(int %s) *q;%s }" % (abstract, pr("a", ["(int)sizeof(int %s)" % abstract]
+                                                                 + chain("(*q)", d, sz, args))))
+        out.append("static void k%d(int %s);" % (i, abstract))
+    out.append("static void f%d(void) { printf(\"C %d\");" % (i, i))
+    out += body
     out.append(' printf("\\n"); }')
     return "\n".join(out) + "\n"
 
 
 def expect_declarator(i, c):
-    s = "C %d" % i + "".join(" %d" % x for x in c["sizes"])
-    if c["sizes"]:
-        s += " t%d" % c["sizes"][0]
-    return s
+    d, sz = c["d"], [x for x in c["sizes"] if x != -1]
+    fn = bool(d) and d[0] == "F"
+    f = ["C", str(i), "g"] + sz + ["l"] + sz + ["t"] + sz
+    if not fn:
+        f += ["m"] + sz + c["member"]
+    f += ["p"] + [x for x in param_sizes(c) if x != -1]
+    if c["abstract"] != ["-"] and not fn:
+        f += ["a", sz[0]] + sz
+    return " ".join(str(x) for x in f)
+
+
+def render_addr(i, c):
+    """&e is a pointer to the type of e: sizeof(*&e), &e + 1 for the declared object and what it leads to."""
+    named, abstract, args, pars = decorate(i, c)
+    d, sz = c["d"], c["sizes"]
+    return ("%s int %s;\nstatic void f%d(void) { printf(\"C %d\");%s printf(\"\\n\"); }\n"
+            % ("extern" if d and d[0] == "F" else "static", named % ("x%d" % i), i, i,
+               pr("r", addr_chain("x%d" % i, d, sz, args))))
+
+
+def expect_addr(i, c):
+    return " ".join(str(x) for x in ["C", i, "r"] + addr_sizes(c))
+
+
+def addr_sig(c, e, g_):
+    return "declarator-addr:%s" % ("array" if any(o in ("A2", "A3") for o in c["d"]) else "".join(c["d"]))
+
+
+ARRQ = ["const N", "static const N", "volatile restrict static N", "const volatile", "restrict N", "static N", "_Atomic N"]
+
+
+def render_arrq(i, c):
+    """A parameter of array type whose outermost brackets hold type qualifiers / static (definition) or * (prototype)."""
+    d = c["d"]
+    return ("static void k%d(int %s);\nstatic void h%d(int %s) {%s }\n"
+            "static void f%d(void) { printf(\"C %d\"); h%d(0); printf(\"\\n\"); }\n"
+            % (i, decorate(i, c, "*")[0] % "x", i, decorate(i, c, ARRQ[i % len(ARRQ)])[0] % "x",
+               pr("p", chain("x", d, param_sizes(c), decorate(i, c)[2])), i, i, i))
+
+
+def expect_arrq(i, c):
+    return " ".join(str(x) for x in ["C", i, "p"] + [x for x in param_sizes(c) if x != -1])
+
+
+def render_plf(i, c):
+    """A type name / unnamed parameter that begins with a parameter list: `int (void)`, `int * (void)`, `int ((void))`.
+    The type name is observed through typeof; the parameter's type (a pointer to the function type, 6.7.6.3p8) through
+    _Generic against the same type spelt with the necessary parentheses only - for array-free types, because
+    compatibility of array types is not this property's business."""
+    named, abstract, args, pars = decorate(i, c)
+    d, sz = c["d"], c["sizes"]
+    k = ""
+    if not any(o in ("A2", "A3") for o in d):
+        k = ' printf(" k %%d", _Generic(&k%d, void (*)(int %s): 1, default: 2));' % (i, canon(["P"] + d, [""] + pars))
+    return ("static void k%d(int %s);\n"
+            "static void f%d(void) { printf(\"C %d\"); { typeof(int %s) *q;%s }\n"
+            "%s printf(\"\\n\"); }\n"
+            % (i, abstract, i, i, abstract, pr("a", chain("(*q)", d, sz, args)), k))
+
+
+def expect_plf(i, c):
+    k = [] if any(o in ("A2", "A3") for o in c["d"]) else ["k", 1]
+    return " ".join(str(x) for x in ["C", i, "a"] + [x for x in c["sizes"] if x != -1] + k)
+
+
+DECL_PRELUDE = "typedef int TD0;\n"
+
+
+def shape(c):
+    """the shape of the parse tree: parentheses directly nested / redundant / only where precedence requires / none"""
+    s = c["s"]
+    if any(s[j] == "G" and s[j + 1] == "G" for j in range(len(s) - 1)):
+        return "nested-parens"
+    if any(o == "G" and not (j > 0 and s[j - 1] == "P" and j + 1 < len(s) and s[j + 1] in ("A2", "A3", "F"))
+           for j, o in enumerate(s)):
+        return "redundant-parens"
+    return "parens" if "G" in s else "plain"
+
+
+def decl_rejsig(c):
+    return "declarator:%s:rejected-or-crashed" % shape(c)
+
+
+def decl_sig(c, e, g_):
+    """root-cause class: the shape of the parse tree and the contexts whose observation differs"""
+    ctxs = {}
+    for side, line in (("e", e), ("g", g_)):
+        cur = None
+        for t in line.split()[2:]:
+            if t.isalpha():
+                cur = t
+                ctxs.setdefault(cur, {}).setdefault(side, [])
+            elif cur:
+                ctxs[cur][side].append(t)
+    bad = [k for k in "gltmpak" if k in ctxs and ctxs[k].get("e") != ctxs[k].get("g")]
+    return "declarator:%s:%s:%s" % (shape(c), "".join(bad) or "?", "".join(c["d"]))
 
 
 def render_std(i, c):
@@ -93,29 +300,71 @@ def run_decl(ctx, tree):
     ctx.phase("declspec")
     # ---- declarators
     out = os.path.join(ctx.scratch, "declarator.ndjson")
-    g = c08.gen(ctx, "layout", "Declarator", "Declarator_mc.cfg", out, MaxLen=5 if q else 6, Emit=True)
+    # the whole domain (MaxLen derivations, MaxG pairs of parentheses) is model-checked; its part with at most 4
+    # derivations and 2 pairs is replayed completely, of the rest a seed-selected part
+    g = c08.gen(ctx, "layout", "Declarator", "Declarator_mc.cfg", out, MaxLen=5 if q else 6, MaxG=2 if q else 3, Emit=True)
     if not g.ok:
         p = ctx.replay_dir("tlc-Declarator")
         open(p + "/counterexample.txt", "w").write(g.trace_text())
         ctx.report("tlc:Declarator:%s" % g.violated, "declarator() does not parse back the type it was rendered from", p)
-    ctl = ctx.tlc("layout", "Declarator", ctx.cfg("layout", "Declarator_mc.cfg", Broken=True, MaxLen=3), workers=2, count=False)
+    ctl = ctx.tlc("layout", "Declarator", ctx.cfg("layout", "Declarator_mc.cfg", Broken=True, MaxLen=3, MaxG=1), workers=2, count=False)
     if ctl.ok:
         raise Infra("sensitivity control failed: TLC accepts a wrong declarator parser")
-    decls = vt.read_ndjson(out)
-    if len(decls) < 100:
-        raise Infra("declarator generator wrote only %d cases" % len(decls))
-    ctx.sample(dict(kind="declarator", case=decls[len(decls) // 2], c_source=render_declarator(3, decls[len(decls) // 2])))
-    c08.compare(ctx, tree, decls, render_declarator, expect_declarator, "declarator",
-                lambda c, e, g_: "declarator:%s" % "".join(c["d"]))
+    ctl = ctx.tlc("layout", "Declarator", ctx.cfg("layout", "Declarator_mc.cfg", ParamFirst=False, MaxLen=2, MaxG=1), workers=2, count=False)
+    if ctl.ok:
+        raise Infra("sensitivity control failed: TLC accepts a parser that takes every '(' for a parenthesised declarator")
+    key = lambda c: json.dumps(c["s"])
+    allc = vt.read_ndjson(out)
+    small = sorted((c for c in allc if len(c["d"]) <= 4 and c["g"] <= 2), key=key)
+    large = [c for c in allc if not (len(c["d"]) <= 4 and c["g"] <= 2)]
+    if len(small) < 1000 or len(large) < 1000:
+        raise Infra("declarator generator wrote only %d + %d cases" % (len(small), len(large)))
+    large.sort(key=key)
+    decls = small + vt.subsample(large, ctx.seed, 6 if q else 12)
+    ctx.sample(dict(kind="declarator", case=decls[len(decls) // 2], c_source=render_declarator(3, decls[len(decls) // 2]),
+                    expected=expect_declarator(3, decls[len(decls) // 2])))
+    c08.compare(ctx, tree, decls, render_declarator, expect_declarator, "declarator", decl_sig, prelude_extra=DECL_PRELUDE,
+                rejsig=decl_rejsig)
+    # type names and unnamed parameters that begin with a parameter list: one translation unit each
+    lead = [c for c in decls if plf(c)]
+    lead = vt.subsample(lead, ctx.seed, max(1, len(lead) // (40 if q else 200)))
+    c08.compare(ctx, tree, lead, render_plf, expect_plf, "declarator-plf",
+                lambda c, e, g_: "declarator-plf:%s" % "".join(c["s"]), prelude_extra=DECL_PRELUDE, per=1)
+    # the address of the declared object and of the lvalues it leads to
+    addr = [c for c in small if len(c["s"]) <= 3 and addr_sizes(c)]
+    c08.compare(ctx, tree, addr, render_addr, expect_addr, "declarator-addr", addr_sig, prelude_extra=DECL_PRELUDE)
+    # parameters of array type with qualifiers, static or * between the outermost brackets: one translation unit each
+    arrq = [c for c in small if c["d"] and c["d"][0] in ("A2", "A3") and len(c["s"]) <= 3]
+    arrq = vt.subsample(arrq, ctx.seed, 2 if q else 1)
+    c08.compare(ctx, tree, arrq, render_arrq, expect_arrq, "declarator-arrq",
+                lambda c, e, g_: "declarator-arrq:%s" % "".join(c["s"]), prelude_extra=DECL_PRELUDE, per=1)
     ctx.phase("declarator")
+    ctx.cov["declarator_array_qualifier_cases"] = len(arrq)
+    ctx.cov["declarator_address_cases"] = len(addr)
     ctx.cov["declspec_cases"] = len(specs)
     ctx.cov["declarator_cases"] = len(decls)
+    ctx.cov["declarator_states_model_checked"] = len(small) + len(large)
+    ctx.cov["declarator_paramlist_first_cases"] = len(lead)
 
 
 def replay_one(ctx, tree, c):
     if c["kind"] == "declspec":
         c08.compare(ctx, tree, [c["case"]], render_declspec, expect_declspec, "declspec",
                     lambda c_, e, g_: "declspec:%s" % "-".join(sorted(c_["kw"])), first=c.get("index", 0))
+    elif c["kind"] == "stddef":
+        c08.compare(ctx, tree, [c["case"]], render_std, expect_std, "stddef", lambda c_, e, g_: "stddef:%s" % c_["std"]["name"],
+                    first=c.get("index", 0), prelude_extra="#include <stddef.h>\n")
+    elif c["kind"] == "declarator-addr":
+        c08.compare(ctx, tree, [c["case"]], render_addr, expect_addr, "declarator-addr", addr_sig, first=c.get("index", 0),
+                    prelude_extra=DECL_PRELUDE)
+    elif c["kind"] == "declarator-arrq":
+        c08.compare(ctx, tree, [c["case"]], render_arrq, expect_arrq, "declarator-arrq",
+                    lambda c_, e, g_: "declarator-arrq:%s" % "".join(c_["s"]), first=c.get("index", 0),
+                    prelude_extra=DECL_PRELUDE, per=1)
+    elif c["kind"] == "declarator-plf":
+        c08.compare(ctx, tree, [c["case"]], render_plf, expect_plf, "declarator-plf",
+                    lambda c_, e, g_: "declarator-plf:%s" % "".join(c_["s"]), first=c.get("index", 0),
+                    prelude_extra=DECL_PRELUDE, per=1)
     else:
-        c08.compare(ctx, tree, [c["case"]], render_declarator, expect_declarator, "declarator",
-                    lambda c_, e, g_: "declarator:%s" % "".join(c_["d"]), first=c.get("index", 0))
+        c08.compare(ctx, tree, [c["case"]], render_declarator, expect_declarator, "declarator", decl_sig,
+                    first=c.get("index", 0), prelude_extra=DECL_PRELUDE, rejsig=decl_rejsig)
